@@ -323,10 +323,10 @@ def CommonSel (l : List PB) (z : List Rat) : Prop := ∀ P ∈ l, Sel P z
 theorem foldlM_imp_ok {n : Nat} (ps : List PB) (p : PB) (hp : WF n p) (hps : ∀ P ∈ ps, WF n P)
     (z : List Rat) (hz : CommonSel (p :: ps) z) :
     ∃ E, ps.foldlM (imp n) p = .ok E ∧ WF n E ∧ Sel E z ∧ (∀ P ∈ p :: ps, Sub E P) ∧
-      (∀ Q, (∀ P ∈ p :: ps, Sub Q P) → Sub Q E) := by
+      (∀ Q, (∀ P ∈ p :: ps, Sub Q P) → Sub Q E) ∧ E = ps.foldl impSpec p := by
   induction ps generalizing p with
   | nil =>
-    refine ⟨p, rfl, hp, hz p (by simp), fun P hP => ?_, fun Q hQ => hQ p (by simp)⟩
+    refine ⟨p, rfl, hp, hz p (by simp), fun P hP => ?_, fun Q hQ => hQ p (by simp), rfl⟩
     simp at hP; subst hP; exact Sub.rfl _
   | cons q qs ih =>
     have hq := hps q (by simp)
@@ -334,13 +334,13 @@ theorem foldlM_imp_ok {n : Nat} (ps : List PB) (p : PB) (hp : WF n p) (hps : ∀
     have hzq := hz q (by simp)
     have hc : Compat p q := (compat_iff_common hp hq).mpr ⟨z, hzp, hzq⟩
     have hw := impSpec_wf hp hq hc
-    obtain ⟨E, hE, hwE, hsel, h1, h2⟩ := ih (impSpec p q) hw (fun P hP => hps P (by simp [hP]))
+    obtain ⟨E, hE, hwE, hsel, h1, h2, hfold⟩ := ih (impSpec p q) hw (fun P hP => hps P (by simp [hP]))
       (by
         intro P hP
         rcases List.mem_cons.mp hP with rfl | hP
         · exact sel_impSpec hzp hzq
         · exact hz P (by simp [hP]))
-    refine ⟨E, ?_, hwE, hsel, ?_, ?_⟩
+    refine ⟨E, ?_, hwE, hsel, ?_, ?_, by rw [hfold, List.foldl_cons]⟩
     · simp only [List.foldlM_cons, imp_ok hp hq hc]
       exact hE
     · intro P hP
@@ -410,7 +410,10 @@ theorem foldImp_ok {n : Nat} (l : List PB) (hne : l ≠ []) (hl : ∀ P ∈ l, W
       (∀ Q, (∀ P ∈ l, Sub Q P) → Sub Q E) := by
   cases l with
   | nil => exact absurd rfl hne
-  | cons p ps => exact foldlM_imp_ok ps p (hl p (by simp)) (fun P hP => hl P (by simp [hP])) z hz
+  | cons p ps =>
+    obtain ⟨E, h1, h2, h3, h4, h5, -⟩ :=
+      foldlM_imp_ok ps p (hl p (by simp)) (fun P hP => hl P (by simp [hP])) z hz
+    exact ⟨E, h1, h2, h3, h4, h5⟩
 
 theorem foldImp_err {n : Nat} (l : List PB) (hne : l ≠ []) (hl : ∀ P ∈ l, WF n P)
     (hno : ¬ ∃ z, CommonSel l z) : foldImp n l = .error .Other := by
